@@ -263,16 +263,19 @@ class G(object):
         s += "".join("A[%d, %d] = %d; " % (i, j, x) for (i, j), x in sorted(self.w.items()))
         if dt and dt != "int64":
             s += "A = A.astype(%r); " % dt
-        if rep == "csrz":
+        nocopy = "-nocopy" in rep
+        rep = rep.replace("-nocopy", "")
+        if rep.startswith("csrz"):
             zs = zero_positions(self)
             s += ("A = sp.csr_matrix(A); Z = %r; A = sp.csr_matrix((list(A.data) + [0] * len(Z), (list(A.nonzero()[0]) + [z[0] for z in Z], "
                   "list(A.nonzero()[1]) + [z[1] for z in Z])), shape=A.shape, dtype=A.dtype); " % [list(z) for z in zs])
         elif rep in SPARSE_REPS:
             s += "A = sp.%s(A); " % SPARSE_REPS[rep]
+        kw = ", copy=False" if nocopy else ""
         if point:
-            s += "P = np.arange(%d, dtype=float).reshape(%d, 2); g = %s(P, A)" % (2 * self.n, self.n, cls)
+            s += "P = np.arange(%d, dtype=float).reshape(%d, 2); g = %s(P, A%s)" % (2 * self.n, self.n, cls, kw)
         else:
-            s += "g = %s(A)" % cls
+            s += "g = %s(A%s)" % (cls, kw)
         return s
 
     def rp(self, **kw):
@@ -477,12 +480,34 @@ def matrix_for(g, variant):
     a = g.dense().astype(np.dtype(dt or "int64"))
     if rep == "dense":
         return a
-    if rep == "csrz":
+    rep = rep.replace("-nocopy", "")     # (the copy flag is the constructor's: see build)
+    if rep.startswith("csrz"):
+        # csr with explicitly STORED zeros at non-edge positions, produced in one of three ways:
+        #   csrz  : handed to the csr constructor as data;  csrzt : in-place thresholding of A.data;
+        #   csrza : item assignment A[i, j] = 0 on stored entries
         ks = sorted(g.w)
         zs = zero_positions(g)
-        data = np.array([g.w[k] for k in ks] + [0] * len(zs)).astype(a.dtype)
-        return sp.csr_matrix((data, ([k[0] for k in ks] + [z[0] for z in zs], [k[1] for k in ks] + [z[1] for z in zs])),
-                             shape=(g.n, g.n), dtype=a.dtype)
+        rows, cols = [k[0] for k in ks] + [z[0] for z in zs], [k[1] for k in ks] + [z[1] for z in zs]
+        if rep == "csrz" or a.dtype == np.bool_ or not zs:
+            data = np.array([g.w[k] for k in ks] + [0] * len(zs)).astype(a.dtype)
+            return sp.csr_matrix((data, (rows, cols)), shape=(g.n, g.n), dtype=a.dtype)
+        big = max([abs(x) for x in g.w.values()] + [1]) + 1       # a placeholder weight no edge carries (fits: see dtype_ok)
+        if not dtype_ok(G(g.kind, 1, {(0, 0): big}), str(a.dtype)):
+            big = 1 if 1 not in g.w.values() and -1 not in g.w.values() else None
+        if big is None:
+            data = np.array([g.w[k] for k in ks] + [0] * len(zs)).astype(a.dtype)
+            return sp.csr_matrix((data, (rows, cols)), shape=(g.n, g.n), dtype=a.dtype)
+        data = np.array([g.w[k] for k in ks] + [big] * len(zs)).astype(a.dtype)
+        m = sp.csr_matrix((data, (rows, cols)), shape=(g.n, g.n), dtype=a.dtype)
+        if rep == "csrzt":
+            m.data[m.data == np.array(big).astype(a.dtype)] = 0          # thresholding in place: the entries stay stored
+        else:
+            import warnings
+            with warnings.catch_warnings():
+                warnings.simplefilter("ignore")
+                for z in zs:
+                    m[z[0], z[1]] = 0                                    # assignment of 0 to a stored entry keeps it stored
+        return m
     return getattr(sp, SPARSE_REPS[rep])(a)
 
 
@@ -515,7 +540,8 @@ def build(g, variant, point, rng=None):
             return cls.init_from_edges(points_for(g.n), arr)
         return cls.init_from_edges(arr, g.n)
     a = matrix_for(g, variant)
-    obj = cls(points_for(g.n), a) if point else cls(a)
+    kw = {"copy": False} if "-nocopy" in variant else {}     # copy=False: the object keeps the caller's matrix
+    obj = cls(points_for(g.n), a, **kw) if point else cls(a, **kw)
     obj.__dict__["_verif_variant"] = variant    # harness-side note for the replays: how this object was built
     return obj
 
@@ -824,7 +850,7 @@ def check_basic(ctx, b, g, variant, point, rng=None, full=True):
     if rep in REFUSED_REPS:
         ctx.count("construct-accepted:" + rep)    # should the class start to accept it, it has to behave like any other graph
     # explicitly stored zeros are non-edges for every edge query; is_tree goes through scipy.csgraph (see STORED_ZEROS_STRICT)
-    cmp = battery(ctx, obj, g, rp, rng, full, trees=rep != "csrz" or STORED_ZEROS_STRICT or zeros_dropped(obj))
+    cmp = battery(ctx, obj, g, rp, rng, full, trees=not rep.startswith("csrz") or STORED_ZEROS_STRICT or zeros_dropped(obj))
     b.add("basic", g.wire(), cmp, rp)
     if rng is not None and (g.n > 5 or getattr(ctx, "entry_all", False) or rng.random() < (0.04 if ctx.quick() else 0.25)):
         # the vertex guards of every entry point (random graphs: always; the exhaustive small domains: a seeded 4 %
@@ -1191,11 +1217,12 @@ def check_tree_ctor(ctx, b, g, r, point, via, rng=None):
                 "Tree.init_from_edges(np.array(%r), %d, %d)" % ([list(e) for e in es], g.n, r))
         variant = None
     else:
-        variant = "dense:" + (via.partition(":")[2] or "int64")
+        variant = via if via.startswith("csrz") else "dense:" + (via.partition(":")[2] or "int64")
         a = matrix_for(g, variant)
         args = (points_for(g.n), a, r) if point else (a, r)
-        ctor = cls
-        call = "%s(%sA, %d)" % (cls.__name__, "P, " if point else "", r)
+        nocopy = "-nocopy" in variant
+        ctor = (lambda *aa: cls(*aa, copy=False)) if nocopy else cls
+        call = "%s(%sA, %d%s)" % (cls.__name__, "P, " if point else "", r, ", copy=False" if nocopy else "")
         if variant != "dense:int64":
             ctx.count("tree-ctor:" + variant)
     rp = g.rp(root=r, point=point, call=call, variant=variant)
@@ -1883,6 +1910,33 @@ def refused_representations(ctx, b, rng):
         safely(ctx, check_basic, b, g, rep + ":" + rng.choice([d for d in DTYPES if dtype_ok(g, d)]), bool(rng.random() < 0.5), rng)
 
 
+def stored_zero_constructions(ctx, b, rng):
+    """in EVERY run, whatever the seed: each graph class built from a csr matrix with explicitly stored zeros, the zeros
+    produced in each of the three ways (constructor data / in-place thresholding / A[i, j] = 0) and the matrix both copied
+    by the constructor and kept (copy=False).  A stored zero is a non-edge for every query: the two components of the
+    fixed graph stay apart for find_path / find_shortest_path / is_tree / minimum_spanning_tree as for edges / is_edge."""
+    gu = G.undirected(4, [(0, 1), (2, 3)], [2, 3])
+    gd = G.directed_(4, [(0, 1), (2, 3)], [2, 3])
+    gt = G.directed_(4, [(0, 1), (0, 2), (1, 3)], [2, 3, 4])
+    for zr in ("csrz", "csrzt", "csrza"):
+        for nc in ("", "-nocopy"):
+            variant = zr + nc + ":int64"
+            for g in (gu, gd):
+                for point in (False, True):
+                    ctx.count("explicit-zeros:fixed:" + zr + nc)
+                    obj = safely(ctx, check_basic, b, g, variant, point, rng)
+                    if obj is not None:
+                        for (s_, t_) in ((0, 3), (0, 1), (1, 2)):
+                            safely(ctx, check_paths, b, g, obj, s_, t_)
+                            safely(ctx, check_shortest, b, g, obj, s_, t_)
+            for point in (False, True):
+                ctx.count("explicit-zeros:fixed:" + zr + nc)
+                t = safely(ctx, check_tree_ctor, b, gt, 0, point, variant, rng)
+                if t is not None:
+                    safely(ctx, check_paths, b, gt, t, 3, 2)
+                    safely(ctx, check_paths, b, gt, t, 0, 3)
+
+
 def malformed_constructions(ctx, rng):
     """inputs the constructors have to refuse (or repair): an ASYMMETRIC matrix for an undirected graph (the state the
     property names: 'adjacency symmetric for undirected'), a number of points different from the number of vertices.
@@ -2050,7 +2104,19 @@ def random_case(ctx, b, rng, k):
             g = random_graph(rng, nmax=rng.choice([6, 12, 20]), weighted=rng.random() < 0.5, signs=rng.choice(["+", "+-"]))
             point = rng.random() < 0.5
             dts = [d for d in DTYPES if dtype_ok(g, d)]
-            obj = safely(ctx, check_basic, b, g, "csrz:" + rng.choice(dts), point, rng)
+            # every graph class, the zeros produced in three ways, the matrix copied by the constructor or kept (copy=False)
+            zrep = rng.choice(["csrz", "csrzt", "csrza"]) + rng.choice(["", "-nocopy"])
+            ctx.count("explicit-zeros:route:" + zrep)
+            if k % 3 == 0:     # a Tree / PointTree built from such a matrix
+                tg, troot = random_tree(rng, nmax=rng.choice([5, 9]), weighted=rng.random() < 0.5)
+                t = safely(ctx, check_tree_ctor, b, tg, troot, point, zrep + ":" + rng.choice([d for d in DTYPES if dtype_ok(tg, d)]), rng)
+                if t is not None:
+                    ctx.count("explicit-zeros:tree:" + type(t).__name__)
+                    for _ in range(2):
+                        s_, t_ = rng.randrange(tg.n), rng.randrange(tg.n)
+                        safely(ctx, check_paths, b, tg, t, s_, t_, all_paths=tg.n <= 7)
+                        safely(ctx, check_shortest, b, tg, t, s_, t_, "auto", rng.random() < 0.3)
+            obj = safely(ctx, check_basic, b, g, zrep + ":" + rng.choice(dts), point, rng)
             if obj is not None:
                 strict = STORED_ZEROS_STRICT or zeros_dropped(obj)
                 ctx.count("explicit-zeros:" + ("none-possible" if not zero_positions(g) else
@@ -2203,6 +2269,7 @@ def run(ctx):
     edge_lists_with_isolated_ends(ctx, b, rng)
     refused_representations(ctx, b, rng)
     malformed_constructions(ctx, rng)
+    stored_zero_constructions(ctx, b, rng)
     exhaustive(ctx, b, rng)
     with_loops(ctx, b, rng)
     randoms(ctx, b, rng, ctx.n(320, 3200), flush=True)
@@ -2255,7 +2322,7 @@ def replay_case(ctx, b, rp):
         pobj = obj if point else safely(ctx, build_checked, g, variant, True)
         if pobj is not None:
             for _ in range(3 if "mask2" in rp else 1):
-                safely(ctx, check_mask, b, g, pobj, tuple(rp["mask"]), rng, deep=True, trees=not variant.startswith("csrz"))
+                safely(ctx, check_mask, b, g, pobj, tuple(rp["mask"]), rng, deep=True, trees=not variant.startswith("csrz") or STORED_ZEROS_STRICT)
     elif "start" in rp:
         safely(ctx, check_paths, b, g, obj, rp["start"], rp["end"], all_paths=g.n <= 8)
         if "algorithm" in rp:   # the other metric first: an answer must not depend on what was asked before
